@@ -31,6 +31,9 @@ def oracle(c):
             want_name = sim["name"] if sim["strings"] else "manu. %#010x, device %#010x, serial %#010x" % (sim["ident"][0], sim["ident"][1], sim["ident"][3])
             if sd["name"] != want_name or sd["ident"] != sim["ident"] or sd["alias"] != sim["alias"] or sd["dc"] != sim["dc"]:
                 return "record", "device %d is recorded as %s, the device at that ring position is %s" % (pos, {k: sd[k] for k in ("name", "ident", "alias", "dc")}, {k: sim[k] for k in ("name", "ident", "alias", "dc")})
+            if "ports" in sd and sd["ports"] != sim["ports"]:
+                return "record-ports", "device %d is recorded with links on ports %s, the device at that ring position has links on %s" % (
+                    pos, [i for i, b in enumerate(sd["ports"]) if b], [i for i, b in enumerate(sim["ports"]) if b])
             if c["assign"][pos] != gi:
                 return "group", "device %d is in group %d, the filter said %d" % (pos, gi, c["assign"][pos])
     if sorted(seen) != list(range(n)):
@@ -98,5 +101,5 @@ def run(ctx, replay=None):
             dis += max(1, len(idxs))
             ctx.violation("model and implementation disagree on %d initialisation(s)" % len(idxs), {"broken": "correspondence", "case": cs[idxs[0]] if idxs and idxs[0] < len(cs) else None}, no_input=True)
     ctx.coverage.update(evaluations=len(cases), distinct_nontrivial=len({json.dumps([c["n"], c["assign"], c["sim"]]) for c in cases}),
-                        rule="chains of 0..10 simulated devices (capacity 8): couplers, simple I/O, CoE devices; random identities, aliases, names or none, DC none/32/64 bit, 4/8 byte SII reads, vendor categories, arbitrary or duplicate pre-existing station addresses; 1..3 groups by a random filter",
+                        rule="lines and (one in three) trees with junctions on ports 1..3 of 0..10 simulated devices (capacity 8); the recorded link state of the four ports is compared with the device at that ring position;: couplers, simple I/O, CoE devices; random identities, aliases, names or none, DC none/32/64 bit, 4/8 byte SII reads, vendor categories, arbitrary or duplicate pre-existing station addresses; 1..3 groups by a random filter",
                         network_sizes=sizes, disagreements=dis, samples=[{"n": cases[0]["n"], "assign": cases[0]["assign"], "res": cases[0]["res"]}])
